@@ -436,7 +436,13 @@ class IRSpec:
         k = Const('kq_ct', c.Key)
         st.pc.append(ForAll([k], Implies(td[k], And(dh[k] == lh[k], Implies(lh[k], dv[k] == lvv[k]))), patterns=[td[k]]))
         h['t:data'] = Store(h['t:data'], r, td); h['lh:data'] = Store(h['lh:data'], r, lh); h['lv:data'] = Store(h['lv:data'], r, lvv)
-        for kind_ in (['ValueError@hook'] + (['TypeError'] if cls_ == 'Port' else [])):
+        is_none = lambda v: v[0] == 'ref' and v[1].eq(c.null)
+        given = list(args[1:]) + list(kw.values())
+        exits = []
+        if any(not is_none(v) for v in given): exits.append('ValueError@hook')      # only naming/data arguments can be refused
+        if cls_ == 'Port' and (len(args) > 6 and not is_none(args[6]) or ('direction' in kw and not is_none(kw['direction']))):
+            exits.append('TypeError')
+        for kind_ in exits:
             sv = st.fork(); se.exit(sv, kind_)
         cont(st, se.none())
 
@@ -489,8 +495,19 @@ class IRSpec:
         # exits: an arbitrary observer may veto (C19 model); the stock listener may refuse by ValueError (C01/C02/C14 model)
         if self.listener in ('both', 'observers') and not kind.startswith('create_'):
             sv = st.fork(); se.exit(sv, 'ListenerVeto')
+        parent_of = lambda e_: se.name_term(st, If(c.isa(e_, 'Library'), h['_netlist'][e_], If(c.isa(e_, 'Definition'), h['_library'][e_],
+                          If(c.isa(e_, 'Port', 'Cable'), h['_definition'][e_], If(c.isa(e_, 'Instance'), h['_parent'][e_], c.null)))))
+        Pd = parent_of(a[1]) if kind.startswith('dictionary_') else None      # named before any fork so every fork knows its definition
         if kind in VETO_KINDS:
-            sv = st.fork(); se.exit(sv, 'ValueError@hook')
+            # stock hook contract (NamespaceManager): an add is refused on a naming conflict in the parent's table; a data edit is
+            # refused for an illegal identifier, or for a name/identifier conflict when the element has a parent
+            sv = st.fork()
+            if kind == 'dictionary_set':
+                kk = se.to_key(st, args[1])
+                sv.pc.append(Or(kk == c.KEY_EDIF, And(kk == c.KEY_NAME, Pd != c.null)))
+                if se.sat(sv, strong=True): se.exit(sv, 'ValueError@hook')
+            else:
+                se.exit(sv, 'ValueError@hook')
         if kind in NS_WRITERS:
             NsS = h['ns'].sort().range()
             newv = c.fresh('nsv', NsS)
@@ -498,8 +515,7 @@ class IRSpec:
                 P = a[1]; val = newv
             elif kind.startswith('dictionary_'):
                 e_ = a[1]
-                P = se.name_term(st, If(c.isa(e_, 'Library'), h['_netlist'][e_], If(c.isa(e_, 'Definition'), h['_library'][e_],
-                                 If(c.isa(e_, 'Port', 'Cable'), h['_definition'][e_], If(c.isa(e_, 'Instance'), h['_parent'][e_], c.null)))))
+                P = Pd
                 k_ = se.to_key(st, args[1])
                 touches = And(P != c.null, Or(k_ == c.KEY_NAME, k_ == c.KEY_EDIF))
                 if kind != 'dictionary_set': touches = And(touches, h['dhas'][e_][k_])
@@ -563,7 +579,9 @@ class IRSpec:
         if field in ('_instance', '_inner_pin'):
             # outer-pin bookkeeping: implied by a reference / port / pin announcement concerning the instance or the inner pin
             if self.is_fresh(st, owner): return
-            return self._cover(se, st, field, self.opin_cover(st, h['_instance'][owner], h['_inner_pin'][owner], new if field == '_inner_pin' else None))
+            # an outer pin whose instance was already cleared is in the middle of a detachment that has been checked at that store
+            return self._cover(se, st, field, Or(h['_instance'][owner] == c.null,
+                               self.opin_cover(st, h['_instance'][owner], h['_inner_pin'][owner], new if field == '_inner_pin' else None)))
         if field == 'okeys':
             return self._cover(se, st, '_pins.clear', h['t:ref'][owner])
         return  # scalar bundle attributes and is_top_instance are unwatched by design (no callback exists)
